@@ -26,23 +26,30 @@ type solverCfg struct {
 	argv func(file string, timeoutS int) []string
 }
 
+// Limits are CPU seconds of the solver process (ulimit -t), not wall-clock
+// time: whether an obligation is discharged must not depend on how loaded the
+// machine is.  The wall-clock limits handed to the solvers themselves (and
+// the context deadline) are only a generous backstop.
 var solvers = []solverCfg{
-	{"z3-5.1.0", func(f string, t int) []string { return []string{"z3-new", fmt.Sprintf("-T:%d", t), f} }},
-	{"z3-4.8.12", func(f string, t int) []string { return []string{"z3", fmt.Sprintf("-T:%d", t), f} }},
+	{"z3-5.1.0", func(f string, t int) []string { return []string{"z3-new", fmt.Sprintf("-T:%d", wallCap(t)), f} }},
+	{"z3-4.8.12", func(f string, t int) []string { return []string{"z3", fmt.Sprintf("-T:%d", wallCap(t)), f} }},
 	{"cvc5-1.0", func(f string, t int) []string {
-		return []string{"cvc5", "--enum-inst", fmt.Sprintf("--tlimit=%d", t*1000), f}
+		return []string{"cvc5", "--enum-inst", fmt.Sprintf("--tlimit=%d", wallCap(t)*1000), f}
 	}},
 	{"z3-5.1.0-ematch", func(f string, t int) []string {
-		return []string{"z3-new", fmt.Sprintf("-T:%d", t), "smt.auto_config=false", "smt.mbqi=false", f}
+		return []string{"z3-new", fmt.Sprintf("-T:%d", wallCap(t)), "smt.auto_config=false", "smt.mbqi=false", f}
 	}},
 }
 
+func wallCap(cpuS int) int { return cpuS*12 + 30 }
+
 func runSolver(parent context.Context, sc solverCfg, file string, timeoutS int) (status string, out string, ms int64) {
-	ctx, cancel := context.WithTimeout(parent, time.Duration(timeoutS+2)*time.Second)
+	ctx, cancel := context.WithTimeout(parent, time.Duration(wallCap(timeoutS)+5)*time.Second)
 	defer cancel()
 	argv := sc.argv(file, timeoutS)
 	start := time.Now()
-	cmd := exec.CommandContext(ctx, argv[0], argv[1:]...)
+	sh := append([]string{"-c", fmt.Sprintf("ulimit -t %d; exec \"$@\"", timeoutS), "sh"}, argv...)
+	cmd := exec.CommandContext(ctx, "/bin/sh", sh...)
 	b, _ := cmd.CombinedOutput()
 	ms = time.Since(start).Milliseconds()
 	out = string(b)
@@ -62,6 +69,10 @@ func runSolver(parent context.Context, sc solverCfg, file string, timeoutS int) 
 		return "timeout", out, ms
 	}
 	if ctx.Err() != nil || strings.Contains(out, "timeout") || strings.Contains(out, "interrupted") {
+		return "timeout", out, ms
+	}
+	if ps := cmd.ProcessState; ps != nil && !ps.Success() && first == "" {
+		// killed by the CPU limit (SIGXCPU/SIGKILL) before answering
 		return "timeout", out, ms
 	}
 	return "error", out, ms
